@@ -52,6 +52,18 @@ func (m *Machine) scheduleVia(http bool, p string, vars map[string]interface{}, 
 		m.inWindow(r, func() { id, err = m.scheduleVia(http, p, vars, user) })
 		return
 	}
+	if m.guardDepth == 0 {
+		// (a call that does not come back: the runner is blocked)
+		m.guardDepth++
+		ok := m.w.Call("ScheduleAsync", func() { id, err = m.scheduleVia(http, p, vars, user) })
+		m.guardDepth--
+		if !ok {
+			m.blocked()
+			return uuid.Nil, fmt.Errorf("runner blocked")
+		}
+		m.flushDeferred()
+		return
+	}
 	if !http {
 		job, err := m.w.PR.ScheduleAsync(p, prunner.ScheduleOpts{Variables: vars, User: user})
 		if err != nil {
@@ -103,7 +115,18 @@ func (m *Machine) scheduleVia(http bool, p string, vars map[string]interface{}, 
 }
 
 // cancelVia returns nil if the cancel was acknowledged.
-func (m *Machine) cancelVia(http bool, id uuid.UUID) error {
+func (m *Machine) cancelVia(http bool, id uuid.UUID) (err error) {
+	if m.guardDepth == 0 {
+		m.guardDepth++
+		ok := m.w.Call("CancelJob", func() { err = m.cancelVia(http, id) })
+		m.guardDepth--
+		if !ok {
+			m.blocked()
+			return fmt.Errorf("runner blocked")
+		}
+		m.flushDeferred()
+		return
+	}
 	if !http {
 		return m.w.PR.CancelJob(id)
 	}
@@ -136,6 +159,7 @@ func clipStr(s string, n int) string {
 // after 3 ms (a runner that completes jobs under its lock makes the call wait), and waits for the call.
 func (m *Machine) inWindow(r *SimRunner, call func()) {
 	done := make(chan struct{})
+	m.guardDepth++ // failures noted by the call are reported below, in this goroutine
 	go func() { defer close(done); call() }()
 	select {
 	case <-done:
@@ -147,5 +171,15 @@ func (m *Machine) inWindow(r *SimRunner, call func()) {
 	r.holdFinish = false
 	r.holdCond.Broadcast()
 	m.w.mu.Unlock()
-	<-done
+	t := time.NewTimer(StallLimit)
+	defer t.Stop()
+	select {
+	case <-done:
+		m.guardDepth--
+	case <-t.C:
+		m.guardDepth--
+		m.w.setBlocked("a call made while a job was completing")
+		m.blocked()
+	}
+	m.flushDeferred()
 }
